@@ -27,8 +27,6 @@ impl<T> Window<T> {
 		r is Ok ==> r->Ok_0.wf()
 			&& r->Ok_0.view() =~= w.buf@.subrange(w.index as int, w.buf@.len() as int) + w.buf@.subrange(0, w.index as int),
 //@replace let w = SerializableWindow::deserialize(deserializer)?; ==> 
-//@replace let max_length = PeriodType::MAX as usize - 1; let error = SerdeError::custom(format!( "Length of window's buffer cannot be more than {max_length}.", )); return Err(error); ==> return Err(());
-//@replace let error = SerdeError::custom(format!("Index {index} is out of window's buffer bounds.")); return Err(error); ==> return Err(());
 //@end
 }
 
